@@ -34,6 +34,7 @@ fn main() {
         "merge-record" => merge::record(&args),
         "parser-replay" => parse::replay(&args),
         "schema-record" => parse::record_schema(&args),
+        "parser-record" => parse::record_parser(&args),
         "docs-trace" => parse::docs_trace(&args),
         "cases-docs" => parse::cases_docs(&args),
         "cli-replay" => cli::replay(&args),
